@@ -40,6 +40,12 @@ func (k *c17Ctx) describe(tag string, data []byte) {
 	oracle := SL{}
 	for i := range k.rows {
 		i := i
+		if k.rows[i].Parser == "UUIDValue" || k.rows[i].Sniffer == "IsUUID" {
+			// answered by the model itself; kept out of the input so that a recorded case
+			// regenerates identically on a repaired tree
+			oracle = append(oracle, SL{I(0), ObsErr()})
+			continue
+		}
 		res := guard(func() Sx {
 			inf, err := file.VerifRunRowParser(i, base, data)
 			if err != nil {
